@@ -161,6 +161,11 @@ func (w *world) run(target int64) error {
 		if w.minStoreHeight() >= target {
 			return nil
 		}
+		for _, i := range w.s.HonestIdx() {
+			if rs := w.s.Nodes[i].CS.GetRoundState(); rs.Round > 6 {
+				return fmt.Errorf("no decision within 6 rounds below height %d (nothing is dropped in these rounds: the proposals are being refused): %s", target, w.fingerprint())
+			}
+		}
 		p, err := w.flush()
 		if err != nil {
 			return err
